@@ -1,8 +1,13 @@
 #!/bin/sh
-# Builds the framework from files on disk only (offline).
+# Builds the framework from files on disk only (offline): the two quick-tier profiles,
+# concurrently, each in its own target directory (the same ones ./check uses).
 set -e
 cd "$(dirname "$0")/harness"
 export CARGO_NET_OFFLINE=true
 unset RUSTFLAGS CARGO_TARGET_DIR
-cargo build --offline --release
-cargo build --offline --profile relchk
+cargo build --offline --release --target-dir ../target/harness-release &
+P1=$!
+cargo build --offline --profile relchk --target-dir ../target/harness-relchk &
+P2=$!
+wait $P1
+wait $P2
